@@ -62,8 +62,14 @@ theorem framedBodyIO_refines (c : Codec) (x : ReaderIO) (k : Nat) :
         simp only [hnle, if_false, hshort, if_true, hrel2 hshort]
         refine ⟨sc2, ?_⟩
         by_cases hp : 0 < input.length
-        · simp only [hp, if_true]
-        · simp only [hp, if_false]
+        · have hne : input ≠ [] := List.length_pos_iff.mp hp
+          simp only [hp, if_true, hne, if_false]
+        · have he : input = [] := by
+            cases input with
+            | nil => rfl
+            | cons _ _ => simp at hp
+          subst he
+          simp
       · have hle : deN l ≤ input.length := by omega
         simp only [hle, if_true, hshort, if_false]
         exact ⟨sc2, rfl⟩
